@@ -6,6 +6,7 @@
 //@ harness: prefix_mask_leading_ones complete props=C17
 //@ harness: div_ceil_8 complete props=C17
 //@ harness: pref64_tables_inverse complete props=C17
+//@ harness: pref64_tables_rfc8781 complete props=C17
 // The six SerialiseInto impls of radv/icmppkt.rs (`v.extend(x.to_be_bytes().iter())` one-liners) are assumed in unit raser to
 // append exactly the big-endian octets of the value; the std conversions u128 <-> Ipv6Addr are assumed big-endian; mask128 is
 // assumed to be "the first n bits".  These harnesses check those assumptions against the real code and the real std.
@@ -88,6 +89,18 @@ fn pref64_tables_inverse() {
         Some(l) => assert!(pref64_plc(l) == Some(c)),
         None => assert!(c > 5),
     }
+}
+
+// RFC 8781 section 4, the PLC table itself (body-independent; all 256 lengths and all 65536 codes): 0 = /96, 1 = /64, 2 = /56,
+// 3 = /48, 4 = /40, 5 = /32, nothing else.  (Being each other's inverse -- the harness above -- does not pin the table down.)
+#[kani::proof]
+fn pref64_tables_rfc8781() {
+    let len: u8 = kani::any();
+    let want = match len { 96 => Some(0u16), 64 => Some(1), 56 => Some(2), 48 => Some(3), 40 => Some(4), 32 => Some(5), _ => None };
+    assert!(pref64_plc(len) == want);
+    let c: u16 = kani::any();
+    let wantl = match c { 0 => Some(96u8), 1 => Some(64), 2 => Some(56), 3 => Some(48), 4 => Some(40), 5 => Some(32), _ => None };
+    assert!(pref64_prefixlen(c) == wantl);
 }
 
 // (A body-independent harness on the whole serialise_router_advertisement -- one captive-portal option, URL of fixed length 6 / 7 with
